@@ -680,7 +680,7 @@ def work_is_bounded(ctx, sut, only=None):
             entries = counter.calls.get("init", 0) + counter.calls.get("new", 0)
             ctx.count("work.calls_measured")
             ctx.count("work.initialiser_entries", entries)
-            budget = 10 * (depth + 2)
+            budget = 40 * (depth + 2)
             if entries > budget:
                 ctx.witness("work_not_bounded", {"site": "work", "depth": depth, "member_defaults": member_defaults},
                             f"one call ({label}) on a chain of {depth} models with defaults entered the model "
